@@ -1199,6 +1199,11 @@ func (f *FuncVC) resolveMods(ev *Eval, mods []ModTarget) []resolvedMod {
 			out = append(out, resolvedMod{kind: "all", text: m.Text})
 		case "fields":
 			v := ev.evalPure(m.Expr)
+			if v.K == KPtr && v.P != nil && len(v.P.Base) == 2 && len(v.P.Path) == 0 && v.P.Heap != "" {
+				// pointer to an element of a slice of structs: that one element
+				out = append(out, resolvedMod{kind: "elems", heap: v.P.Heap, obj: v.P.Base[0], off: v.P.Base[1], ln: "1", text: m.Text})
+				continue
+			}
 			if v.K != KPtr || v.Ty == nil || !isStructPtr(v.Ty) {
 				ev.fail("modifies %s: not a struct pointer", m.Text)
 				continue
